@@ -43,7 +43,7 @@ func refRoot(hs [][32]byte) [32]byte {
 func TestC03(t *testing.T) {
 	r := kit.Start(t, "C03", "exploration")
 	defer r.Finish()
-	r.Rule("every list length n in the declared range × content shapes {random, all-equal, last-two-equal, sequential}; distinct = (n, shape, root); blocks: honest block decodes, root off by one bit / reordered txs refused")
+	r.Rule("every list length n in the declared range × content shapes {random, all-equal, last-two-equal, sequential}; distinct = (n, shape, root); blocks: honest block decodes, root off by one bit / reordered txs refused; RebuildMerkleRoot after the block hash was taken and the tx list then filled / emptied / extended / shortened")
 	rng := r.Rand("roots")
 	maxN := r.N(1100, 4100)
 	sizes := []int{}
@@ -196,7 +196,50 @@ func TestC03(t *testing.T) {
 				}
 			}
 		}
+		// RebuildMerkleRoot commits the block's *current* transaction list, also when the block's
+		// hash was taken earlier (logging, map key, signing a template) and the list changed afterwards
+		tb := &types.Block{Header: &types.Header{Height: uint32(i + 1), ConsensusPayload: []byte{2}}}
+		var cur [][32]byte
+		how := []string{"template-filled-after-hash", "emptied-after-hash", "extended-after-hash", "shortened-after-hash"}[i%4]
+		switch how {
+		case "template-filled-after-hash":
+			tb.RebuildMerkleRoot()
+			tb.Hash()
+			tb.Transactions = append([]*types.Transaction{}, blk.Transactions...)
+			cur = hs
+		case "emptied-after-hash":
+			tb.Transactions = append([]*types.Transaction{}, blk.Transactions...)
+			tb.RebuildMerkleRoot()
+			tb.Header.Hash()
+			tb.Transactions = nil
+		case "extended-after-hash":
+			tb.Transactions = append([]*types.Transaction{}, blk.Transactions...)
+			tb.RebuildMerkleRoot()
+			tb.Hash()
+			extra := pk.MakeTx(0, rng.Uint32(), []byte{byte(i), 0x51})
+			tb.Transactions = append(tb.Transactions, extra)
+			cur = append(append([][32]byte{}, hs...), [32]byte(extra.Hash()))
+		case "shortened-after-hash":
+			tb.Transactions = append([]*types.Transaction{}, blk.Transactions...)
+			tb.RebuildMerkleRoot()
+			tb.Hash()
+			if ntx > 0 {
+				tb.Transactions = tb.Transactions[:ntx-1]
+				cur = hs[:ntx-1]
+			}
+		}
+		tb.RebuildMerkleRoot()
+		r.Eval(1)
+		r.Distinct("rebuild-after-hash", how, len(cur), refRoot(cur))
+		if got, want2 := [32]byte(tb.Header.TransactionsRoot), refRoot(cur); got != want2 {
+			r.Violation("rebuild-mismatch:"+how, fmt.Sprintf("block hash taken, transaction list then changed to %d txs, RebuildMerkleRoot left root %x, reference root %x", len(cur), got[:], want2[:]),
+				map[string]interface{}{"how": how, "ntx_before": ntx, "ntx_after": len(cur)})
+		} else {
+			r.Count("rebuild_after_hash_ok", 1)
+			r.Count("rebuild_"+how, 1)
+		}
 	}
+	r.Require("rebuild_after_hash_ok", nb/2)
 	r.Require("honest_blocks_accepted", nb/2)
 	r.Require("wrong_root_refused", nb/2)
 	r.Assume("SHA-256 from the Go standard library is the reference hash")
